@@ -27,6 +27,7 @@ import (
 	"os/exec"
 	"path/filepath"
 	"regexp"
+	"runtime/debug"
 	"sort"
 	"strconv"
 	"strings"
@@ -47,6 +48,11 @@ var pkgNames = map[string]string{
 	modPath + "/sib/v2":      "verz",
 	modPath + "/sib/third":   "third",
 	modPath + "/sib/odd-dir": "realname",
+	modPath + "/sib/a/util":  "util",
+	modPath + "/sib/b/util":  "util",
+	modPath + "/sib/uses":    "uses",
+	modPath + "/sib/via":     "via",
+	modPath + "/sib/far":     "far",
 }
 
 // ---------------------------------------------------------------- descriptions
@@ -102,6 +108,7 @@ type gstruct struct {
 
 type giface struct {
 	Name    string  `json:"name"`
+	Embeds  []*gty  `json:"embeds,omitempty"` // embedded named interfaces (written before the methods)
 	Methods []gmeth `json:"methods,omitempty"`
 }
 
@@ -326,6 +333,9 @@ func sources(p *prog) map[string]string {
 	var ab, bb strings.Builder
 	for _, it := range p.Ifaces {
 		ab.WriteString("type " + it.Name + " interface {\n")
+		for _, e := range it.Embeds {
+			ab.WriteString("\t" + a.ty(e) + "\n")
+		}
 		for _, m := range it.Methods {
 			ab.WriteString("\t" + m.Name + a.sig(m.Ps, m.Variadic, m.Rs) + "\n")
 		}
@@ -380,6 +390,23 @@ type I interface {
 type G[X any] struct{ V X }
 type Err struct{}
 
+// interfaces that embed interfaces with overlapping (identical) methods: a diamond
+type Closer interface{ Close() error }
+type Reader interface {
+	Closer
+	Read(p []byte) (n int, err error)
+	Peer() third.X
+}
+type Writer interface {
+	Closer
+	Write(p []byte) (int, error)
+	Peer() (x third.X)
+}
+type ReadWriter interface {
+	Reader
+	Writer
+}
+
 func (*Err) Error() string { return "" }
 
 type A = T
@@ -417,6 +444,67 @@ type RI interface{ Run(r R) }
 type V struct{}
 type Opt[T any] struct{}
 `,
+	// two packages of one name, and a package whose types have methods that mention the second
+	// one, the package of directory odd-dir (package realname) and package far: embedded in a
+	// generated package they bring these packages in on demand, under names that may be bound
+	// already (by an import of the file, by a rename, by a package-level declaration)
+	"sib/a/util/util.go": `package util
+
+type X struct{}
+`,
+	"sib/b/util/util.go": `package util
+
+type T struct{}
+`,
+	"sib/uses/uses.go": `package uses
+
+import (
+	"example.com/farm/sib/b/util"
+	"example.com/farm/sib/far"
+	"example.com/farm/sib/odd-dir"
+)
+
+type UE struct{}
+
+func (UE) UM(t util.T) util.T { return t }
+
+type UO struct{}
+
+func (*UO) UOdd(o realname.Odd, _ ...*realname.Odd) {}
+
+type UF struct{}
+
+func (UF) UFar(x far.X) map[string]far.X { return nil }
+
+type UI interface{ UIM(util.T) (far.X, error) }
+`,
+	// via embeds a type of package far, which no generated package ever imports itself: far is
+	// only reachable through via (go/packages does not list it among the imports of the loaded
+	// packages, its source is not at hand)
+	"sib/via/via.go": `package via
+
+import "example.com/farm/sib/far"
+
+type Via struct{ far.Deep2 }
+
+func (Via) ViaOwn(x far.X) {}
+
+type ViaI interface {
+	far.FarI
+	ViaM() far.X
+}
+`,
+	"sib/far/far.go": `package far
+
+type X struct{}
+type Deep2 struct{}
+
+// FarOnly has a comment nobody can read.
+func (Deep2) FarOnly(_ X, n int) (X, error) { return X{}, nil }
+func (*Deep2) FarPtr()                       {}
+
+type FarI interface{ FarM(x X) }
+`,
 	"sib/odd-dir/x.go": `package realname
 
 type Odd struct{}
@@ -428,9 +516,54 @@ type OddI interface{ Odd(o *Odd) []Odd }
 
 type gtree struct {
 	Self   *gty     `json:"self"`
-	Own    []gmeth  `json:"own"`
+	Own    []gmeth  `json:"own"`              // for a named interface: go/types' Method(i) list (the flattened set)
 	Fields []string `json:"fields,omitempty"` // names of all struct fields (embedded ones included)
 	Emb    []*gtree `json:"emb,omitempty"`
+	Iface  *gitree  `json:"iface,omitempty"` // a named interface as declared
+}
+
+// gitree: the declaration of a named interface: explicit methods and embedded named interfaces
+type gitree struct {
+	Self     *gty      `json:"self"`
+	Explicit []gmeth   `json:"explicit"`
+	Emb      []*gitree `json:"emb,omitempty"`
+}
+
+func methOf(f *types.Func) gmeth {
+	sig := f.Type().(*types.Signature)
+	ps, rs := convSig(sig)
+	return gmeth{Name: f.Name(), Ps: ps, Rs: rs, Variadic: sig.Variadic()}
+}
+
+// buildITree reads the declaration of a named interface off go/types: ExplicitMethod(i) and
+// EmbeddedType(i).  An embedded element that is not a named interface (a union, a type literal)
+// is outside the model: the node is then given as go/types' flattened list, with a note.
+func buildITree(n *types.Named, it *types.Interface, notes map[string]bool, depth int) *gitree {
+	tr := &gitree{Self: conv(n), Explicit: []gmeth{}}
+	flat := func() *gitree {
+		tr.Explicit, tr.Emb = []gmeth{}, nil
+		for i := 0; i < it.NumMethods(); i++ {
+			tr.Explicit = append(tr.Explicit, methOf(it.Method(i)))
+		}
+		return tr
+	}
+	for i := 0; i < it.NumExplicitMethods(); i++ {
+		tr.Explicit = append(tr.Explicit, methOf(it.ExplicitMethod(i)))
+	}
+	for i := 0; i < it.NumEmbeddeds(); i++ {
+		en, ok := types.Unalias(it.EmbeddedType(i)).(*types.Named)
+		if !ok || depth > 8 {
+			notes["iface_embeds_unhandled_kind"] = true
+			return flat()
+		}
+		eit, ok := en.Underlying().(*types.Interface)
+		if !ok {
+			notes["iface_embeds_unhandled_kind"] = true
+			return flat()
+		}
+		tr.Emb = append(tr.Emb, buildITree(en, eit, notes, depth+1))
+	}
+	return tr
 }
 
 func conv(t types.Type) *gty {
@@ -497,15 +630,14 @@ func buildTree(n *types.Named, notes map[string]bool, depth int) *gtree {
 		for i := 0; i < it.NumMethods(); i++ {
 			ms = append(ms, it.Method(i))
 		}
+		tr.Iface = buildITree(n, it, notes, 0)
 	} else {
 		for i := 0; i < n.NumMethods(); i++ {
 			ms = append(ms, n.Method(i))
 		}
 	}
 	for _, f := range ms {
-		sig := f.Type().(*types.Signature)
-		ps, rs := convSig(sig)
-		tr.Own = append(tr.Own, gmeth{Name: f.Name(), Ps: ps, Rs: rs, Variadic: sig.Variadic()})
+		tr.Own = append(tr.Own, methOf(f))
 		if !f.Exported() && f.Pkg() != nil && depth > 0 {
 			notes["unexported_embedded"] = true
 		}
@@ -572,8 +704,16 @@ func galMeth(m gmeth) string {
 	return "M " + gal.Str(m.Name) + " " + galPars(m.Ps) + " " + gal.Bool(m.Variadic) + " " + galPars(m.Rs) + " false"
 }
 
-// galTree: the selectors of a node are its methods followed by its fields (m_field = true)
-func galTree(t *gtree) string {
+func galITree(t *gitree) string {
+	return "IT (" + galTy(t.Self) + ") " + gal.ListOf(t.Explicit, galMeth) + " " + gal.ListOf(t.Emb, galITree)
+}
+
+// galSrc: the embedding tree as declared (IFaceModel.stree); interfaces are not flattened here —
+// the model computes their method set itself (iface_methods)
+func galSrc(t *gtree) string {
+	if t.Iface != nil {
+		return "SIface (" + galITree(t.Iface) + ")"
+	}
 	sel := make([]string, 0, len(t.Own)+len(t.Fields))
 	for _, m := range t.Own {
 		sel = append(sel, galMeth(m))
@@ -581,7 +721,18 @@ func galTree(t *gtree) string {
 	for _, f := range t.Fields {
 		sel = append(sel, "M "+gal.Str(f)+" [] false [] true")
 	}
-	return "Tr (" + galTy(t.Self) + ") " + gal.List(sel) + " " + gal.ListOf(t.Emb, galTree)
+	return "SStruct (" + galTy(t.Self) + ") " + gal.List(sel) + " " + gal.ListOf(t.Emb, galSrc)
+}
+
+// gtIfaces: go/types' Method(i) lists of the interface nodes, pre-order (IFaceJudge.src_ifaces)
+func gtIfaces(t *gtree, out *[]string) {
+	if t.Iface != nil {
+		*out = append(*out, gal.ListOf(t.Own, galMeth))
+		return
+	}
+	for _, e := range t.Emb {
+		gtIfaces(e, out)
+	}
 }
 
 // ---------------------------------------------------------------- observation
@@ -620,8 +771,11 @@ type jcase struct {
 	Errors   []string          `json:"build_errors,omitempty"`
 	Rendered string            `json:"rendered"`
 	Notes    []string          `json:"notes,omitempty"`
+	Panic    string            `json:"panic,omitempty"`    // FindInterface panicked: the message
+	PanicIn  string            `json:"panic_in,omitempty"` // innermost gencommon function on the stack
 	Desc     *prog             `json:"desc"`
 	file     string
+	written  []string // names bound by the import lines of the rendered file
 }
 
 func (c *jcase) gallina() string {
@@ -640,12 +794,14 @@ func (c *jcase) gallina() string {
 	obs := gal.ListOf(c.Obs, func(o jobs) string {
 		return "OM " + gal.Str(o.Name) + " " + gal.Str(o.Sig) + " " + gal.ListOf(o.In, gal.Str) + " " + gal.ListOf(o.Out, gal.Str)
 	})
+	var gts []string
+	gtIfaces(c.Tree, &gts)
 	imps := gal.ListOf(c.Imports, func(i jimp) string {
 		return "(" + gal.Str(i.Alias) + ", " + gal.Str(i.Path) + ", " + gal.Str(i.Str) + ")"
 	})
 	return "C19 " + gal.Str(c.Self) + " " + gal.List(pi) + " " + specs + " " + gal.ListOf(c.Locals, gal.Str) + " " +
-		gal.Bool(c.Priv) + " " + gal.Bool(c.Emb) + " (" + galTree(c.Tree) + ") " + obs + " " + imps + " " +
-		gal.ListOf(c.GoMS, gal.Str) + " " + gal.Bool(c.Compiled)
+		gal.Bool(c.Priv) + " " + gal.Bool(c.Emb) + " (" + galSrc(c.Tree) + ") " + obs + " " + imps + " " +
+		gal.ListOf(c.GoMS, gal.Str) + " " + gal.List(gts) + " " + gal.Bool(c.Compiled)
 }
 
 func fatal(f string, a ...any) {
@@ -720,7 +876,14 @@ func observe(p *prog, pkgs []*packages.Package, pkg *packages.Package, file stri
 	}
 	sort.Strings(c.GoMS)
 
-	iface, err := gencommon.FindInterface(ih, pkgs, pkg.PkgPath, target, opts...)
+	markUnloaded(c, pkgs)
+	iface, err := findInterface(c, ih, pkgs, pkg.PkgPath, target, opts)
+	if c.Panic != "" {
+		// no interface at all: judged as "does not compile and fit" (nothing is rendered)
+		c.Compiled = false
+		c.Errors = append(c.Errors, "FindInterface panicked: "+c.Panic+" (in "+c.PanicIn+")")
+		return c
+	}
 	if err != nil {
 		fatal("FindInterface %s.%s: %v", p.Name, target, err)
 	}
@@ -745,6 +908,7 @@ func observe(p *prog, pkgs []*packages.Package, pkg *packages.Package, file stri
 	for _, i := range c.Imports {
 		if usesQualifier(all, i.Alias) {
 			imps = append(imps, "\t"+i.Str+"\n")
+			c.written = append(c.written, i.Alias)
 		}
 	}
 	if len(imps) > 0 {
@@ -767,6 +931,68 @@ func observe(p *prog, pkgs []*packages.Package, pkg *packages.Package, file stri
 		writeFile(filepath.Join(work, c.file), c.Rendered)
 	}
 	return c
+}
+
+var reClash = regexp.MustCompile(`^(\w+) (?:already declared through import of package|redeclared in this block)`)
+
+var reFrame = regexp.MustCompile(`gencommon\.(?:\(\*?\w+\)\.|\w+\.)?(\w+)\(`)
+
+// findInterface calls the real FindInterface; a panic becomes part of the observation.
+func findInterface(c *jcase, ih *gencommon.ImportHandler, pkgs []*packages.Package, pkgPath, target string,
+	opts []gencommon.ParseIFaceOption) (iface *gencommon.Interface, err error) {
+	defer func() {
+		if r := recover(); r != nil {
+			c.Panic = fmt.Sprint(r)
+			c.PanicIn = "?"
+			st := string(debug.Stack())
+			if i := strings.Index(st, "panic("); i >= 0 {
+				st = st[i:]
+			}
+			if m := reFrame.FindStringSubmatch(st); m != nil {
+				c.PanicIn = m[1]
+			}
+		}
+	}()
+	return gencommon.FindInterface(ih, pkgs, pkgPath, target, opts...)
+}
+
+// markUnloaded notes the embedded types whose package is not among the loaded packages and their
+// direct imports (no source, hence no comments, for such a type), and those without any package
+// (the predeclared error).
+func markUnloaded(c *jcase, pkgs []*packages.Package) {
+	loaded := map[string]bool{}
+	for _, p := range pkgs {
+		loaded[p.PkgPath] = true
+		for path := range p.Imports {
+			loaded[path] = true
+		}
+	}
+	var walk func(t *gtree, depth int)
+	walk = func(t *gtree, depth int) {
+		if depth > 0 && t.Self.K == "named" {
+			if t.Self.Pkg == "" {
+				c.Notes = append(c.Notes, "embeds_predeclared_type")
+			} else if !loaded[t.Self.Pkg] {
+				c.Notes = append(c.Notes, "embedded_type_of_unloaded_package")
+			}
+		}
+		for _, e := range t.Emb {
+			walk(e, depth+1)
+		}
+	}
+	walk(c.Tree, 0)
+	sort.Strings(c.Notes)
+	c.Notes = dedup(c.Notes)
+}
+
+func dedup(l []string) []string {
+	var out []string
+	for i, x := range l {
+		if i == 0 || x != l[i-1] {
+			out = append(out, x)
+		}
+	}
+	return out
 }
 
 func setenv() {
@@ -823,7 +1049,9 @@ func runFarm(progs []*prog, work string, out *gal.Out) {
 			for k := 0; k < 4; k++ {
 				c := observe(p, pkgs, pkg, file, target, k, work)
 				cases = append(cases, c)
+				if c.file != "" {
 				byFile[c.file] = c
+			}
 			}
 		}
 	}
@@ -842,6 +1070,28 @@ func runFarm(progs []*prog, work string, out *gal.Out) {
 		}
 		c := byFile[m[1]]
 		if c == nil {
+			// a package-level declaration of the program clashing with an import line of a rendered
+			// file is reported at the declaration: blame the rendered files that bind that name
+			if cl := reClash.FindStringSubmatch(m[4]); cl != nil {
+				blamed := 0
+				for f, bc := range byFile {
+					if filepath.Dir(f) != filepath.Dir(m[1]) {
+						continue
+					}
+					for _, a := range bc.written {
+						if a == cl[1] {
+							bc.Compiled = false
+							if len(bc.Errors) < 4 {
+								bc.Errors = append(bc.Errors, m[4])
+							}
+							blamed++
+						}
+					}
+				}
+				if blamed > 0 {
+					continue
+				}
+			}
 			fatal("compiler error outside the rendered files (generator fault): %s", line)
 		}
 		c.Compiled = false
@@ -911,9 +1161,13 @@ func main() {
 		progs = corpus()
 	case "shapes":
 		for i := 0; i < *n; i++ {
-			if i%3 == 2 {
+			if i%5 == 4 {
+				progs = append(progs, aliasClashProgram(r, fmt.Sprintf("s%d", i), "shapes", -1))
+			} else if i%5 == 3 {
+				progs = append(progs, ifaceUnionProgram(r, fmt.Sprintf("s%d", i), "shapes", -1))
+			} else if i%5 == 2 {
 				progs = append(progs, embedNameProgram(r, fmt.Sprintf("s%d", i), "shapes", nil))
-			} else if i%3 == 1 {
+			} else if i%5 == 1 {
 				progs = append(progs, fieldShadowProgram(r, fmt.Sprintf("s%d", i), "shapes"))
 			} else {
 				progs = append(progs, shapeProgram(r, fmt.Sprintf("s%d", i), "shapes"))
